@@ -335,6 +335,42 @@ func wrongLen(name string) []byte {
 
 // nameOfCaller names a destination-caller value: 32 zero bytes are "CALLER_ZERO" in that field (the
 // same bytes are "MINT_ZERO" as a mint recipient).
+// origMsg gives the original CCTP message of a deposit replacement. Classes "WFR" / "WFO" are
+// WELL-FORMED CCTP messages (116-byte header + burn body) whose destination-caller field is
+// restricted (non-zero) / open (all zero); every other class is an opaque short byte string.
+func origMsg(who string) []byte {
+	if who != "WFR" && who != "WFO" {
+		return []byte("orig-msg-" + who)
+	}
+	m := make([]byte, 116+132)
+	for i := range m {
+		m[i] = byte(1 + i%200)
+	}
+	for i := 0; i < 12; i++ { // version, source domain (4 = Noble), destination domain 0
+		m[i] = 0
+	}
+	m[7] = 4
+	if who == "WFO" {
+		for i := 84; i < 116; i++ {
+			m[i] = 0
+		}
+	}
+	return m
+}
+
+// nameOfOrig maps the bytes of an original message back to the abstract text the specification uses.
+func nameOfOrig(v []byte) string {
+	for _, who := range []string{"WFR", "WFO"} {
+		if string(v) == string(origMsg(who)) {
+			return "orig-msg-" + who
+		}
+	}
+	if len(v) > 40 {
+		return fmt.Sprintf("?%x", v)
+	}
+	return string(v)
+}
+
 func (w *World) nameOfCaller(v []byte) string {
 	if n := w.nameOfBytes(v); n != "CALLER_ZERO" && n != "MINT_ZERO" {
 		return n
